@@ -2,7 +2,7 @@
 # usage: tools/try_patch.sh <patch.diff> <ID> [<ID>...]   -- apply a seeded change to /repo, run the quick checks, undo.
 # Evidence and replays of these runs go to a scratch directory, not to /verif/evidence.
 set -u
-PATCH="$1"; shift
+PATCH="$(realpath "$1")"; shift
 HERE="$(cd "$(dirname "$0")/.." && pwd)"
 SCR="$(mktemp -d /tmp/verif-try.XXXXXX)"
 if ! git -C /repo diff --quiet; then echo "/repo has uncommitted changes; refusing"; exit 9; fi
